@@ -18,6 +18,7 @@ import ClvmProofs.Lemmas.Serde2026MagicBr
 import ClvmProofs.Lemmas.Serde2026Len
 import ClvmProofs.Lemmas.Serde2026Wire
 import ClvmProofs.Lemmas.InternInv
+import ClvmProofs.Lemmas.Serde2026LenSer
 
 namespace Clvm.Props.C20
 open Clvm Clvm.Serde2026
@@ -107,14 +108,15 @@ theorem len_eq_consumed (blob : Bytes) (maxAtomLen : Nat) (strict : Bool) (t : T
 
 /-- The C20 round-trip statement at full strength (every well-formed source DAG, every level, both
 modes, every `max_atom_len` that admits the tree's atoms; the caller's allocator
-is a fresh `Allocator::new()`).  **Not proved in full**: see `de_ser_partial`. -/
+is a fresh `Allocator::new()`).  Proved: `de_ser`. -/
 def RoundTrip : Prop :=
   ∀ (d : Intern.Dag) (root level : Nat) (strict : Bool) (maxAtomLen : Nat) (blob : Bytes),
     d.WF → root < d.size → serialize2026 d root level = .ok blob →
     (∀ b : Bytes, Intern.Subtree (.atom b) (Intern.denote d root) → b.length ≤ maxAtomLen) →
     deserialize2026 blob maxAtomLen strict = .ok (Intern.denote d root)
 
-/-- … and for the length probe (`serialized_length_serde_2026` of a blob followed by anything). -/
+/-- … and for the length probe (`serialized_length_serde_2026` of a blob followed by anything).
+Proved: `len_ser`. -/
 def LenOfSer : Prop :=
   ∀ (d : Intern.Dag) (root level : Nat) (strict : Bool) (blob rest : Bytes),
     d.WF → root < d.size → serialize2026 d root level = .ok blob →
@@ -126,11 +128,11 @@ from *any* group list of the shape the serializer produces and *any* instruction
 exactly what executing that instruction list over the table's atoms yields (`execList`, the decoder's
 `match inst` folded over the list), and the reader stops exactly at the trailing bytes.
 
-Proved from C21 `read_write`.  What is missing for `RoundTrip`: that the instruction list produced by
-`emit_instructions` for the output of `intern_tree`, executed over the atom table in `sort_atoms`
-order, ends with the stack `[denote d root]` (C24 `intern_preserves` supplies the tree; the sort being a
-permutation and the emit/execute simulation are not proved; they are exercised by the SER/DE streams
-and the `serde2026_roundtrip` oracle). -/
+Proved from C21 `read_write`.  This is the wire half of `de_ser` (kept because it holds for *any*
+instruction list and allocator state, not only for serializer output); the other half — the
+instruction list produced by `emit_instructions` for the output of `intern_tree`, executed over the
+atom table in `sort_atoms` order, ends with the stack `[denote d root]` — is
+`Serde2026.serialize2026_parts` (`Lemmas/Serde2026{Emit,Table,RoundTrip}.lean`). -/
 theorem de_ser_partial (maxAtomLen : Nat) (strict : Bool) (ctr : Intern.Counters) (rest : Bytes)
     (groups : List (Nat × List Bytes)) (is : List Int) (cg tbl ci ib : Bytes)
     (hok : ∀ g ∈ groups, GroupOK maxAtomLen g)
@@ -166,5 +168,46 @@ theorem len_ser_partial (maxAtomLen : Nat) (strict : Bool) (ctr c' : Intern.Coun
   congr 1
   simp only [List.length_append]
   omega
+
+/-- **Round trip** (`RoundTrip`): for every well-formed source DAG of any size and depth, every level,
+both modes and every `max_atom_len` admitting the tree's atoms, `deserialize_2026` of the blob written by
+`serialize_2026` is the source tree.  No bound on the tree: the serializer's work loop is shown never
+to exhaust the model's fuel, the decoder's allocations are shown to fit a fresh `Allocator::new()`
+(they are the atoms and pairs `intern_tree` itself allocated), and the tree comes from C24
+`intern_preserves`. -/
+theorem de_ser : RoundTrip := by
+  intro d root level strict maxAtomLen blob wf hroot h hmal
+  obtain ⟨c', hd⟩ := Serde2026.deserialize_serialized wf hroot h maxAtomLen hmal strict []
+  rw [List.append_nil] at hd
+  unfold deserialize2026
+  rw [hd]
+
+/-- **Round trip with trailing bytes**: the decoder stops exactly at the end of the blob — the cursor
+position after decoding `blob ++ rest` is `blob.length`, whatever `rest` is. -/
+theorem de_ser_consumed (d : Intern.Dag) (root level : Nat) (strict : Bool) (maxAtomLen : Nat)
+    (blob rest : Bytes) (wf : d.WF) (hroot : root < d.size) (h : serialize2026 d root level = .ok blob)
+    (hmal : ∀ b : Bytes, Intern.Subtree (.atom b) (Intern.denote d root) → b.length ≤ maxAtomLen) :
+    deserialize2026Consumed (blob ++ rest) maxAtomLen strict = .ok (Intern.denote d root, blob.length) := by
+  obtain ⟨c', hd⟩ := Serde2026.deserialize_serialized wf hroot h maxAtomLen hmal strict rest
+  unfold deserialize2026Consumed
+  rw [hd]
+  simp
+
+/-- **Length probe on serializer output** (`LenOfSer`): `serialized_length_serde_2026` applied to the
+blob followed by *any* bytes returns the blob's length (no assumption on the trailing bytes: a written
+blob is shorter than 2^64 bytes, so the probe's overflow guards cannot fire). -/
+theorem len_ser : LenOfSer := by
+  intro d root level strict blob rest wf hroot h
+  apply Serde2026.serializedLength_serialized wf hroot h (2 ^ 64 - 1) _ strict rest
+  intro b hb
+  have := Serde2026.serialized_atoms_small wf hroot h b hb
+  omega
+
+/-- … and with any `max_atom_len` that admits the tree's atoms. -/
+theorem len_ser_bounded (d : Intern.Dag) (root level : Nat) (strict : Bool) (maxAtomLen : Nat)
+    (blob rest : Bytes) (wf : d.WF) (hroot : root < d.size) (h : serialize2026 d root level = .ok blob)
+    (hmal : ∀ b : Bytes, Intern.Subtree (.atom b) (Intern.denote d root) → b.length ≤ maxAtomLen) :
+    serializedLength2026 (blob ++ rest) maxAtomLen strict = .ok blob.length :=
+  Serde2026.serializedLength_serialized wf hroot h maxAtomLen hmal strict rest
 
 end Clvm.Props.C20
